@@ -383,6 +383,9 @@ func (v *Verifier) setupEntry(r *Root, e *Enc) {
 	for _, rq := range ct.Requires {
 		r.assume(env.boolExpr(rq.E))
 	}
+	if ct.Accessor {
+		r.nopanic = true
+	}
 	if len(ct.NoPanic) > 0 {
 		r.nopanic = true
 		for _, np := range ct.NoPanic {
